@@ -14,13 +14,14 @@ D(n, i) == [name |-> n, id |-> i]
 T_timing == {T(A, FALSE, 0, 1), T(A, TRUE, 0, 2)}
 D_timing == {D(A, 1)}
 \* matching: same / nested / sibling names, CanBePrefix, implicit digest
-T_match == {T(A, FALSE, 0, 2), T(A, TRUE, 0, 2), T(AB, FALSE, 0, 2), T(AB, FALSE, 2, 2), T(AC, TRUE, 0, 2)}
+\* (CanBePrefix together with an implicit digest still names the one packet with that hash)
+T_match == {T(A, FALSE, 0, 2), T(A, TRUE, 0, 2), T(AB, FALSE, 0, 2), T(AB, FALSE, 2, 2), T(AB, TRUE, 2, 2), T(AC, TRUE, 0, 2)}
 D_match == {D(A, 1), D(AB, 2), D(AB, 3), D(ABC, 4)}
 \* small graph for the transition cover
 T_small == {T(A, FALSE, 0, 1), T(A, TRUE, 0, 2), T(AB, FALSE, 0, 1)}
 D_small == {D(A, 1), D(AB, 2)}
-T_dig == {T(AB, FALSE, 2, 2), T(AB, FALSE, 0, 1), T(A, TRUE, 0, 2)}
-D_dig == {D(AB, 2), D(AB, 3)}
+T_dig == {T(AB, FALSE, 2, 2), T(AB, TRUE, 3, 2), T(AB, FALSE, 0, 1), T(A, TRUE, 0, 2)}
+D_dig == {D(AB, 2), D(AB, 3), D(ABC, 4)}
 
 V_v2all == {"PASS", "FAIL", "TIMEOUT", "SILENCE", "BYPASS", "RAISE"}
 V_v2two == {"PASS", "FAIL"}
